@@ -15,6 +15,7 @@
 namespace eg {
 Obs g_obs;
 BufFault g_buf;
+LexScript g_script;
 long g_bounds_hits = 0;
 std::vector<FrameBase*>& registry() { static std::vector<FrameBase*> r; return r; }
 }
@@ -33,6 +34,7 @@ struct Config {
     std::string out;
     int nt = -1, t = -1, minR = 0, maxR = 99, maxW = 99, maxL = 99, minW = 0;
     int err = 0;                 // 0: frames without error positions, 1: frames with, 2: both
+    int custom = 0;              // 1: frames with the scripted custom lexer
     double deadline = 1e18;
     std::string one_spec, one_prec, one_rprec, one_input; bool one = false, has_input = false;
     std::string seeds;
@@ -581,6 +583,66 @@ static void explore_strings(FrameBase& f, const Gram& g, const ref::LR1& L, Ctx&
     if (err_gram && n_acc > 0 && n_rej > 0) { ctr["nontrivial_err"]++; if (cfg.has("C08")) add_sample("C08", jw::Obj().s("grammar", g.text()).s("frame", f.name).i("accepted", n_acc).i("rejected", n_rej).str()); }
 }
 
+// ------------------------------------------------------------------------------------------------ C18: scripted custom lexer
+static bool ws_default(unsigned char c) { return c == ' ' || c == '\n' || c == '\t' || c == '\r' || c == '\v' || c == '\f'; }
+static void explore_custom(FrameBase& f, const Gram& g, const ref::LR1& L) {
+    static std::vector<std::string> inputs;
+    if (inputs.empty()) { inputs.push_back(""); const char al[] = {'x', ' ', '\n'}; for (size_t lo = 0, l = 0; l < (size_t)cfg.maxlen; ++l) { size_t hi = inputs.size(); for (size_t i = lo; i < hi; ++i) for (char c : al) inputs.push_back(inputs[i] + c); lo = hi; } }
+    ref::RefTable rt{L};
+    long scripts_here = 0; bool any_ok = false, any_fail = false;
+    for (const std::string& w : inputs) {
+        if (cfg.has_input && w != cfg.one_input) continue;
+        std::vector<int> prefix;
+        while (true) {
+            cur_input = w; cur_phase = "custom-lexer";
+            g_script.begin(g.T, w.data(), w.size(), prefix);
+            ParseObs ro = f.parse(w.data(), w.size(), PM_OSTREAM);
+            ctr["parses"]++; ctr["C18.evals"]++; ++scripts_here;
+            std::string script_txt; for (auto& a : g_script.asks) script_txt += "@" + std::to_string(a.off) + (a.answer < 0 ? "=fail " : "=(" + std::to_string(a.answer / 64) + "," + std::to_string(a.answer % 64) + ") ");
+            std::string in_vis; for (char c : w) in_vis += c == '\n' ? std::string("\\n") : std::string(1, c);
+            auto viol = [&](const std::string& kind, const std::string& det) { add_viol("C18", kind, f, g, in_vis, "script " + script_txt + ": " + det); };
+            // (1) where the lexer was asked
+            std::vector<ref::Tok> toks; bool lexfail = false; size_t p = 0; bool pos_ok = true;
+            auto skip = [&]() { while (p < w.size() && ws_default((unsigned char)w[p])) ++p; };
+            skip();
+            for (size_t k = 0; k < g_script.asks.size(); ++k) {
+                const LexAsk& a = g_script.asks[k];
+                if (lexfail) { viol("asked-after-failure", "match() called again after it reported failure"); pos_ok = false; break; }
+                if (p >= w.size() || a.off != (int)p) { viol("asked-at-wrong-position", "match() call " + std::to_string(k) + " at offset " + std::to_string(a.off) + ", the next term starts at offset " + std::to_string(p)); pos_ok = false; break; }
+                if (a.answer < 0) { lexfail = true; continue; }
+                toks.push_back(ref::Tok{a.answer / 64, a.off, a.answer % 64}); p += a.answer % 64; skip();
+            }
+            if (ro.horizon) viol("no-termination", "step horizon reached");
+            else if (ro.bounds || ro.threw) viol("exception", ro.bounds ? ro.hit.what : ro.what);
+            else if (pos_ok) {
+                ref::Run ex = ref::drive(g, rt, toks, 400, lexfail);
+                if (!ex.undefined && !ex.horizon) {
+                    auto linecol = [&](int off) { int l = 1, c = 1; for (int k = 0; k < off; ++k) { if (w[k] == '\n') { ++l; c = 1; } else ++c; } return "[" + std::to_string(l) + ":" + std::to_string(c) + "]"; };
+                    size_t endpos = w.size(); { size_t q = toks.empty() ? 0 : toks.back().off + toks.back().len; while (q < w.size() && ws_default((unsigned char)w[q])) ++q; endpos = q; }
+                    std::string want;
+                    for (size_t k = 0; k < ex.err_tok.size(); ++k) { int ti = ex.err_tok[k]; want += (ti < (int)toks.size() ? linecol(toks[ti].off) : linecol((int)endpos)) + " PARSE: Syntax error: Unexpected '" + term_name(g, ex.err_term[k]) + "'\n"; }
+                    if (ex.lex_error) { int fo = g_script.asks.back().off; want += linecol(fo) + " PARSE: Unexpected character: " + std::string(1, w[fo]) + "\n"; }
+                    int asked = (int)g_script.asks.size();
+                    int needed = std::min(ex.terms_examined, (int)toks.size() + (lexfail ? 1 : 0));
+                    if (asked != needed) viol("wrong-number-of-requests", std::to_string(asked) + " match() calls, the documented driver needs " + std::to_string(needed) + " terms");
+                    else if (ro.ok != ex.ok) viol("wrong-acceptance", std::string("parse returned ") + (ro.ok ? "a value" : "empty") + ", the token stream is " + (ex.ok ? "" : "not ") + "accepted");
+                    else if (ro.ok && show_real(ro.root) != ex.show(ex.root)) viol("wrong-values", "returned " + show_real(ro.root) + " expected " + ex.show(ex.root));
+                    else if (ro.err != want) viol("wrong-messages", "stream '" + ro.err + "' expected '" + want + "'");
+                    (ex.ok ? any_ok : any_fail) = true;
+                    outcomes["C18"].insert(std::string(ex.ok ? "ok" : ex.lex_error ? "lexfail" : "syntax") + "-asks" + std::to_string(std::min(asked, 5)) + (ex.nerrors && ex.ok ? "-recovered" : ""));
+                } else ctr["ref_no_verdict"]++;
+            }
+            // next script: the last ask that still has an untried alternative
+            int i = (int)g_script.taken.size() - 1;
+            while (i >= 0 && g_script.taken[i] + 1 >= g_script.alts[i]) --i;
+            if (i < 0) break;
+            prefix.assign(g_script.taken.begin(), g_script.taken.begin() + i + 1); prefix[i]++;
+        }
+    }
+    ctr["C18.scripts"] += scripts_here;
+    if (any_ok && any_fail) { ctr["nontrivial_custom"]++; add_sample("C18", jw::Obj().s("grammar", g.text()).s("frame", f.name).i("scripts", scripts_here).str()); }
+}
+
 static void explore(FrameBase& f, const Gram& g) {
     cur_frame = &f; cur_gram = g; cur_input.clear(); cur_phase = "analysis";
     ctr["grammars"]++;
@@ -609,6 +671,10 @@ static void explore(FrameBase& f, const Gram& g) {
     TblCmp tc = compare_tables(g, *L, d);
     ctr["cells_compared"] += tc.cells;
     if (!tc.equal) ctr["table_mismatch"]++;
+    if (f.custom_lexer) {
+        if (cfg.has("C18") && (lr1 || (!L->any_rr && !L->any_acc && !L->any_sr)) && tc.equal) explore_custom(f, g, *L);
+        return;
+    }
     if (cfg.has("C12")) { ctr["C12.table_evals"]++; outcomes["C12"].insert("states" + std::to_string(std::min(d.nstates, 40))); }
 
     bool diag_clean = true, missed_acc = false;
@@ -656,6 +722,7 @@ static void explore(FrameBase& f, const Gram& g) {
 // ------------------------------------------------------------------------------------------------ enumeration
 static bool frame_selected(const FrameBase& f) {
     if (f.seed_only) return false;
+    if (bool(cfg.custom) != f.custom_lexer) return false;
     if (cfg.nt >= 0 && f.NT != cfg.nt) return false;
     if (cfg.t >= 0 && f.T != cfg.t) return false;
     int W = 0, Lm = 0; bool he = false;
@@ -749,6 +816,7 @@ int main(int argc, char** argv) {
         else if (a == "--minW") cfg.minW = std::atoi(next().c_str());
         else if (a == "--maxL") cfg.maxL = std::atoi(next().c_str());
         else if (a == "--err") cfg.err = std::atoi(next().c_str());
+        else if (a == "--custom") cfg.custom = std::atoi(next().c_str());
         else if (a == "--deadline") cfg.deadline = std::atof(next().c_str());
         else if (a == "--prec-levels") cfg.prec_levels = std::atoi(next().c_str());
         else if (a == "--rprec-max") cfg.rprec_max = std::atoi(next().c_str());
@@ -766,7 +834,7 @@ int main(int argc, char** argv) {
 
     auto find_frame = [&](const Gram& g) -> FrameBase* {
         for (auto* f : registry()) {
-            if (f->NT != g.NT || f->T != g.T || f->R != g.R) continue;
+            if (f->NT != g.NT || f->T != g.T || f->R != g.R || f->custom_lexer != bool(cfg.custom)) continue;
             bool ok = true;
             for (int i = 0; i < g.R && ok; ++i) { if (f->arity[i] != g.n[i]) ok = false; else for (int j = 0; j < g.n[i]; ++j) if (bool(f->iserr[i][j]) != (g.rhs[i][j] == ref::TERM + g.err())) ok = false; }
             if (ok) return f;
